@@ -178,7 +178,7 @@ func (s *Sim) violate(key, format string, a ...any) { // s.mu held
 
 func (s *Sim) logEvent(kind, text string, n int) int64 { // s.mu held
 	seq := s.opt.Seq.Add(1)
-	if len(s.events) < 4000 {
+	if len(s.events) < 4000 || (kind == "cmd" && len(s.events) < 8000) { // host commands (DISCONNECT ...) are what the ordering oracles look for: never crowded out by frames
 		if len(text) > 80 {
 			text = text[:80] + "..."
 		}
